@@ -3,7 +3,7 @@ package busmodel
 import "testing"
 
 func TestTable(t *testing.T) {
-	if len(Types) != 42 {
+	if len(Types) != 43 {
 		t.Fatalf("types=%d", len(Types))
 	}
 	a, b := Types[ByName("LocalA")], Types[ByName("LocalB")]
